@@ -7,6 +7,7 @@ CONSTANTS
   WFull = 1
   RecvMax = 1024
   Hows = {"close", "atexit"}
+  MaxClose = 100000
 CONSTRAINT Report
 INVARIANT TypeOK
 INVARIANT OneSelect
@@ -18,4 +19,7 @@ INVARIANT NoUnreadyDuringSelect
 INVARIANT NoStaleSleep
 INVARIANT JoinedStopped
 INVARIANT NoDeadlock
+INVARIANT ClosedFdImpliesWake
+INVARIANT PollFindsWake
+INVARIANT NoCrash
 CHECK_DEADLOCK FALSE
